@@ -35,7 +35,7 @@ RULE = (
 ASSUMPTIONS = [
     "SciPy's deterministic algorithms are re-entrant between callbacks (design probe); the simulator never runs two threads at once",
     "the seed-change clause is asserted only when a sampler with a continuous distribution handles a free variable",
-    "the run under another PYTHONHASHSEED (fresh interpreter) is made for every 40th scenario; the runner's determinism self-test repeats it for the first runs of the batch",
+    "the run under another PYTHONHASHSEED (fresh interpreter) is made for every 12th scenario; the runner's determinism self-test repeats it for the first runs of the batch",
 ]
 COMPONENTS = {
     "real": ["EnsembleEvaluator RNG handling", "SciPySampler (all methods)", "PluginManager (cached entry-point plug-ins)", "plan / steps", "scipy.optimize incl. differential_evolution (50% of runs)"],
@@ -73,7 +73,7 @@ def _scenario(rng: random.Random, method_hint: int | None = None) -> dict:
         cfg["gradient"]["samplers"] = [rng.randrange(ns) for _ in range(nv)]
     cfg["gradient"]["seed"] = rng.choice([rng.randint(1, 10**6), [rng.randint(1, 1000), rng.randint(1, 1000)]])
     if backend == "de":
-        cfg["optimizer"] = {"method": "differential_evolution", "options": {"maxiter": 1, "popsize": 2, "seed": rng.randint(1, 999), "tol": 0.5}}
+        cfg["optimizer"] = {"method": "differential_evolution", "options": {"maxiter": 1, "popsize": 2, "seed": rng.choice([0, 0, rng.randint(1, 999)]), "tol": 0.5}}
         if rng.random() < 0.5:
             cfg["optimizer"]["parallel"] = True
     elif backend != "scripted":
@@ -100,7 +100,7 @@ def generate(seed: int, index: int, tier: str) -> dict:
                                                   "options": {"uniform": {"loc": -0.25, "scale": 0.5}, "truncnorm": {"a": 0.0, "b": 0.5}, "norm": {"scale": 0.3}}[m0]}
         a["configs"][0]["samplers"][0].pop("options", None)
     return {"prop": PROP, "A": a, "others": others, "sched_seed": rng.getrandbits(32), "reuse": rng.random() < 0.5,
-            "cross_hash": index % 40 == 7,
+            "cross_hash": index % 12 == 7,
             "stratum": a["backend"], "world": a["world"], "configs": a["configs"], "plan": a["plan"]}
 
 
